@@ -958,7 +958,12 @@ func main() {
 	if vh.Thorough() {
 		runs = vh.EnvInt("VERIF_RUNS", 1200)
 	}
+	only := vh.EnvInt("VERIF_ONLY_RUN", -1) // replay of a single run of the stream (runs are forked from the seed by index)
 	for r := 0; r < runs; r++ {
+		if only >= 0 && r != only {
+			rng.Fork(uint64(r)) // keep the stream position: each run's generator is forked from the running state
+			continue
+		}
 		mode := "byz"
 		if r%5 == 4 {
 			mode = "sync"
